@@ -10,6 +10,9 @@ def make_wl(rng, k):
     spec["novel"] = rng.choice([1, 2, 3])
     spec["pre_ids"] = rng.choice([1, 2]) if (k is None and rng.random() < 0.6) or (k is not None and k % 2 == 0) else 0
     spec["mirror"] = rng.choice([0, 1, 2])
+    spec["novel_locus"] = 1 if (k is not None and k % 4 in (0, 1)) or rng.random() < 0.4 else 0
+    spec["chr_naming"] = 1 if (k is not None and k % 4 == 0) or rng.random() < 0.25 else 0
+    spec["twin_chr"] = 1 if (k is not None and k % 4 == 3) or rng.random() < 0.2 else 0
     spec["antisense"] = rng.choice([0, 1])
     spec["n_chr"] = rng.choice([3, 4, 5])
     opts["annotated"] = True if spec["pre_ids"] else opts.get("annotated", True)
